@@ -49,8 +49,8 @@ func init() {
 		Meta: func(tier string) fw.Meta {
 			na, nb := c11Sizes(tier)
 			return fw.Meta{N: na + nb, Level: "fault_enumeration", Chunk: 8, CaseTimeoutS: 240, MinNT: 60,
-				Rule:        "(a) one case = one seeded input set (1..4 ascending inputs, overlapping for the compacting merges, disjoint for Merge) run through Merge / MergeCompact with both reductions / MergeCompactIterator: single fault at EVERY Next position of EVERY input (variants: fail-then-continue, fail-repeatedly, fail-then-end) and at EVERY WriteNext position, plus sampled double faults; every 6th case instead merges REAL tables (reader.Scan, no validation on load) one of whose data files ends early at every record boundary and inside records; oracle: error returned, or output identical to the fault-free output. (b) one case = one SimpleDB scenario in a sub-process (flush of a memstore, one compaction cycle over 2..4 tables, or the flush that Open performs for the replayed WAL of a hand-placed kill image) with one fault: k-th data append / k-th index append of the stream writer, p-th record of an input iterator, or RLIMIT_FSIZE = L bytes (kernel-level EFBIG at the first write crossing L); oracle: process stopped or error returned, never success with reads differing from the model; after a reported error the same process and a fresh process must still read the model. evaluations = fault runs; non-trivial = fault actually reached; distinct by (input hash, fault)",
-				MinObs:      map[string]int64{"merger_fault_runs": 3000, "merger_faults_reached": 2000, "merger_errors_reported": 1000, "db_fault_scenarios": 100, "db_fault_reached": 40, "db_process_stopped_or_error": 30, "rlimit_faults_reached": 5},
+				Rule:        "(a) one case = one seeded input set (1..4 ascending inputs, overlapping for the compacting merges, disjoint for Merge) run through Merge / MergeCompact with both reductions / MergeCompactIterator: single fault at EVERY Next position of EVERY input (variants: fail-then-continue, fail-repeatedly, fail-then-end) and at EVERY WriteNext position, plus sampled double faults; every 6th case instead merges REAL tables (reader.Scan, no validation on load) one of whose data files ends early at every record boundary and inside records; oracle: error returned, or output identical to the fault-free output. (b) one case = one SimpleDB scenario in a sub-process (flush of a memstore, one compaction cycle over 2..4 tables, or the flush that Open performs for the replayed WAL of a hand-placed kill image) with one fault: k-th data append / k-th index append of the stream writer, p-th record of an input iterator, RLIMIT_FSIZE = L bytes (kernel-level EFBIG at the first write crossing L), or ONE file of the flushed table (metadata, index, data, bloom filter) on a full device (symlink to /dev/full planted in the directory the flush will use: ENOSPC on every write to it); oracle: process stopped or error returned, never success with reads differing from the model; after a reported error the same process and a fresh process must still read the model. evaluations = fault runs; non-trivial = fault actually reached; distinct by (input hash, fault)",
+				MinObs:      map[string]int64{"merger_fault_runs": 3000, "merger_faults_reached": 2000, "merger_errors_reported": 1000, "db_fault_scenarios": 100, "db_fault_reached": 40, "db_process_stopped_or_error": 30, "rlimit_faults_reached": 5, "full_device_faults_reached": 5},
 				Assumptions: []string{"hook-level failures are clean failures; RLIMIT_FSIZE failures are real EFBIG results of write(2) through the real buffered writers", "a flush failure ends the process (log.Panicf) — the recoverability of what it leaves behind belongs to C02"},
 			}
 		},
@@ -646,6 +646,7 @@ func c11Sub(args []string) int {
 	// arm
 	var oldLim syscall.Rlimit
 	rlimit := false
+	devfull := false
 	parts := strings.Split(*fault, ":")
 	switch parts[0] {
 	case "data", "index":
@@ -676,6 +677,30 @@ func c11Sub(args []string) int {
 		_ = syscall.Getrlimit(syscall.RLIMIT_FSIZE, &oldLim)
 		if err := syscall.Setrlimit(syscall.RLIMIT_FSIZE, &syscall.Rlimit{Cur: l, Max: oldLim.Max}); err == nil {
 			rlimit = true
+		}
+	case "devfull":
+		next := uint64(1)
+		if ents, err := os.ReadDir(*dir); err == nil {
+			for _, e := range ents {
+				var n uint64
+				if _, err := fmt.Sscanf(e.Name(), simpledb.SSTablePattern, &n); err == nil && n >= next {
+					next = n + 1
+				}
+			}
+		}
+		d := filepath.Join(*dir, fmt.Sprintf(simpledb.SSTablePattern, next))
+		if err := os.MkdirAll(d, 0700); err == nil {
+			devfull = os.Symlink("/dev/full", filepath.Join(d, parts[1])) == nil
+		}
+		if devfull && parts[1] != "bloom.bf.gz" {
+			// the table writer must not claim success when its metadata, index or data file could not be written: the
+			// point right after it returned nil is where that claim becomes observable (what the flusher does with such
+			// a table afterwards — e.g. loading it — is a consequence, and need not terminate)
+			simpledb.VerifSetPoint("flush.tableWritten", func() {
+				_ = enc.Encode(c11Report{Phase: "table-writer-claimed-success"})
+				_ = os.Stdout.Sync()
+				os.Exit(0)
+			})
 		}
 	}
 	rep := c11Report{Phase: "result", Tables: tables}
@@ -713,6 +738,9 @@ func c11Sub(args []string) int {
 		rep.Err = err.Error()
 		if rlimit && strings.Contains(err.Error(), "file too large") {
 			rep.Reached = true
+		}
+		if devfull {
+			rep.Reached = true // nothing else can fail in this scenario (the flusher's own error text ends up in its panic)
 		}
 	}
 	reads, rerr := c11ReadAll(db, keys)
@@ -836,8 +864,12 @@ func c11DB(c *fw.Case, j int) {
 	default:
 		if mode == "compaction" {
 			fault = fmt.Sprintf("iter:%d:%d", r.Intn(4), r.Intn(8))
-		} else {
+		} else if spec == 10 {
 			fault = fmt.Sprintf("rlimit:%d", 20+r.Intn(200))
+		} else {
+			// ONE file of the table the flush is about to write sits on a full device (a symlink to /dev/full planted
+			// in the directory the flush will use): every write to it fails with ENOSPC, all other files are fine
+			fault = "devfull:" + []string{"meta.pb.bin", "index.rio", "data.rio", "bloom.bf.gz"}[(scenario/3)%4]
 		}
 	}
 	c.HashAdd(scenario, mode, fault)
@@ -860,6 +892,11 @@ func c11DB(c *fw.Case, j int) {
 			armed = &rr
 		case "result":
 			result = &rr
+		case "table-writer-claimed-success":
+			c.Obs("db_fault_reached", 1)
+			c.Obs("full_device_faults_reached", 1)
+			c.Violate("db-fault/absorbed/flush/devfull/"+strings.TrimPrefix(fault, "devfull:"), "mode=%s fault=%s scenario=%d: every write to that file of the new table failed with ENOSPC, yet the table writer returned success to the flusher", mode, fault, scenario)
+			return
 		case "result-rotate-failed":
 			// the WAL rotation failed before the flush started: reported as an error, outside this property
 			c.Obs("fault_hit_wal_rotation_before_flush", 1)
@@ -882,6 +919,9 @@ func c11DB(c *fw.Case, j int) {
 		if kind == "rlimit" {
 			c.Obs("rlimit_faults_reached", 1)
 		}
+		if kind == "devfull" {
+			c.Obs("full_device_faults_reached", 1)
+		}
 		c.Nontrivial()
 		return
 	}
@@ -890,7 +930,15 @@ func c11DB(c *fw.Case, j int) {
 		if kind == "rlimit" {
 			c.Obs("rlimit_faults_reached", 1)
 		}
+		if kind == "devfull" {
+			c.Obs("full_device_faults_reached", 1)
+		}
 		c.Nontrivial()
+	}
+	if kind == "devfull" && result.Err == "" {
+		// success was reported although one file of the table could not be written: acceptable only if nothing is
+		// missing or misrepresented (the read comparisons below, in this process and in a fresh one)
+		c.Obs("full_device_on_a_file_whose_loss_was_not_reported", 1)
 	}
 	if result.Err != "" {
 		c.Obs("db_process_stopped_or_error", 1)
